@@ -38,8 +38,9 @@ def xprofile(d):
     return XPROFILE.get(d, A.XSTRICT)
 
 
-PROFILE = {"sqlite": {"al_where": True, "al_group": True, "al_having": True, "al_order_nested": True, "zero_cols": False},
-           "postgres": dict(A.STRICT, zero_cols=True)}
+PROFILE = {"sqlite": {"al_where": True, "al_group": True, "al_having": True, "al_order_nested": True, "zero_cols": False, "implicit_rec": False},
+           "postgres": dict(A.STRICT, zero_cols=True),
+           "mssql": dict(A.STRICT, implicit_rec=True)}      # T-SQL: recursion of a CTE is implicit (matters once WITH RECURSIVE is no longer emitted there: fixes/C07-N6)
 
 
 def profile(d):
